@@ -242,11 +242,11 @@ func runC13() int {
 	r := explore.New("C13")
 	tot := &c12Totals{}
 	depth := 2
-	fams := []*wgen.Family{wgen.F2(2, false)}
+	fams := []*wgen.Family{wgen.F2(2, false), wgen.F2L(2, false)}
 	f1stride := 23
 	if r.Thorough() {
 		depth = 3
-		fams = []*wgen.Family{wgen.F2(3, true), wgen.F2(2, false)}
+		fams = []*wgen.Family{wgen.F2(3, true), wgen.F2(2, false), wgen.F2L(3, true), wgen.F2L(2, false)}
 		f1stride = 5
 	}
 	// F1 representatives (every f1stride-th program: helper-call and compound-assignment sources included)
